@@ -25,6 +25,7 @@
 namespace vf {
 void set_report(int fd, bool verbose);
 std::map<std::string, GenFactory> &registry() { static std::map<std::string, GenFactory> r; return r; }
+std::map<std::string, EnumSpace> &enum_registry() { static std::map<std::string, EnumSpace> r; return r; }
 } // namespace vf
 
 using namespace vf;
@@ -35,6 +36,7 @@ struct Outcome {
     enum Kind { OK, VIOL, INTERNAL, TIMEOUT } kind = OK;
     std::string cls, msg;
     bool nt = false;
+    std::string aux;          // free-form line of the executor (scheduler branch widths)
     std::string raw;          // full stderr of a child that died without a verdict (sanitizer report)
     std::map<std::string, long> labels;
     long skipped = 0, ops = 0;
@@ -102,6 +104,7 @@ Outcome parse_report(const std::string &rep, int status) {
         else if (line.rfind("NT ", 0) == 0) o.nt = line[3] == '1';
         else if (line.rfind("SKIPPED ", 0) == 0) o.skipped = atol(line.c_str() + 8);
         else if (line.rfind("OPS ", 0) == 0) o.ops = atol(line.c_str() + 4);
+        else if (line.rfind("AUX ", 0) == 0) o.aux = line.substr(4);
         else if (line.rfind("LABELS", 0) == 0) {
             std::istringstream ls(line.substr(6)); std::string kv;
             while (ls >> kv) { size_t e = kv.find('='); if (e != std::string::npos) o.labels[kv.substr(0, e)] = atol(kv.c_str() + e + 1); }
@@ -182,11 +185,16 @@ int usage() { fprintf(stderr, "usage: see engine/pbt/driver.cpp\n"); return 3; }
 int main(int argc, char **argv) {
     std::string mode, prop, tierS = "quick", out, replayDir = ".", replayFile;
     uint64_t seed = 1; int cases = 100, maxSize = 100;
+    int shard = 0, nshards = 1, preempt = 2; long maxRuns = 2000000;
     std::vector<std::string> known, foreign;
     for (int i = 1; i < argc; ++i) {
         std::string a = argv[i];
         auto next = [&]() -> std::string { if (i + 1 >= argc) { usage(); _exit(3); } return argv[++i]; };
-        if (a == "--explore" || a == "--render") mode = a;
+        if (a == "--explore" || a == "--render" || a == "--enumerate") mode = a;
+        else if (a == "--shard") shard = atoi(next().c_str());
+        else if (a == "--nshards") nshards = atoi(next().c_str());
+        else if (a == "--preempt") preempt = atoi(next().c_str());
+        else if (a == "--max-runs") maxRuns = atol(next().c_str());
         else if (a == "--replay") { mode = a; replayFile = next(); }
         else if (a == "--prop") prop = next();
         else if (a == "--tier") tierS = next();
@@ -213,6 +221,73 @@ int main(int argc, char **argv) {
         finish_ok();
         fflush(stdout);
         _exit(0);
+    }
+
+    if (mode == "--enumerate") {
+        // Systematic small-scope exploration: every program of the property's small program space (sharded), and for each
+        // program EVERY schedule with at most `preempt` non-default choices (depth-first over the branch widths that the
+        // scheduler reports for each run).  No randomness; complete within the stated bounds unless max-runs is hit.
+        auto es = enum_registry().find(prop);
+        if (es == enum_registry().end()) { fprintf(stderr, "no enumeration space for '%s'\n", prop.c_str()); return 3; }
+        g_errfile = replayDir + "/.stderr." + std::to_string(getpid());
+        long runs = 0, programs = 0, ntRuns = 0, timeouts = 0, internal = 0, knownHits = 0, foreignHits = 0; bool capped = false;
+        std::set<uint64_t> ntHashes; std::vector<std::string> samples; std::map<std::string, long> labels;
+        std::string failFile, failSig, failMsg;
+        auto t0 = std::chrono::steady_clock::now();
+        for (size_t pi = (size_t)shard; pi < es->second.count && failFile.empty() && !capped; pi += (size_t)nshards) {
+            Case base = es->second.at(pi); base.prop = prop; ++programs;
+            struct Node { std::vector<uint8_t> prefix; int used; };
+            std::vector<Node> stack; stack.push_back(Node{{}, 0});
+            while (!stack.empty() && failFile.empty()) {
+                if (runs >= maxRuns) { capped = true; break; }
+                Node nd = stack.back(); stack.pop_back();
+                Case c = base; c.sched = nd.prefix;
+                Outcome o = run_forked(c); ++runs;
+                if (o.kind == Outcome::TIMEOUT) { ++timeouts; continue; }
+                if (o.kind == Outcome::INTERNAL) { ++internal; continue; }
+                if (o.kind == Outcome::VIOL) {
+                    bool skip = false;
+                    for (auto &k : known) if (sig_matches(o.cls, k)) { ++knownHits; skip = true; }
+                    for (auto &k : foreign) if (sig_matches(o.cls, k)) { ++foreignHits; skip = true; }
+                    if (skip) continue;
+                    std::string text = render(c);
+                    char name[64]; snprintf(name, sizeof name, "%s-enum-%016llx.case", prop.c_str(), (unsigned long long)fnv1a(text));
+                    failFile = replayDir + "/" + name; failSig = o.cls; failMsg = o.msg;
+                    std::ofstream f(failFile); f << "# " << o.cls << " (found by small-scope enumeration)\n" << text; f.close();
+                    if (!o.raw.empty()) { std::ofstream rf(failFile + ".report.txt"); rf << o.raw; }
+                    break;
+                }
+                for (auto &kv : o.labels) labels[kv.first] += kv.second;
+                if (o.nt) { ++ntRuns; std::string text = render(c); if (ntHashes.insert(fnv1a(text)).second && samples.size() < 3) samples.push_back(text); }
+                if (nd.used >= preempt) continue;
+                // children: change one later default choice to a non-default alternative
+                const std::string &w = o.aux;   // "W" followed by one digit per consumed choice
+                for (size_t j = nd.prefix.size(); j + 1 < w.size() + 0 && j < 4096; ++j) {
+                    int width = w[j + 1] - '0';
+                    for (int v = 1; v < width; ++v) {
+                        Node ch; ch.prefix = nd.prefix; ch.prefix.resize(j, 0); ch.prefix.push_back((uint8_t)v); ch.used = nd.used + 1;
+                        stack.push_back(std::move(ch));
+                    }
+                }
+            }
+        }
+        double wall = std::chrono::duration<double>(std::chrono::steady_clock::now() - t0).count();
+        unlink(g_errfile.c_str());
+        if (!out.empty()) {
+            std::ofstream j(out);
+            j << "{\n \"prop\": \"" << prop << "\", \"mode\": \"enumerate\", \"wall_s\": " << wall << ", \"programs\": " << programs << ", \"program_space\": " << es->second.count
+              << ", \"runs\": " << runs << ", \"preemption_bound\": " << preempt << ", \"capped\": " << (capped ? "true" : "false") << ", \"nt_runs\": " << ntRuns
+              << ", \"timeouts\": " << timeouts << ", \"internal\": " << internal << ", \"known_hits\": " << knownHits << ", \"foreign_hits\": " << foreignHits << ",\n \"nt_hashes\": [";
+            { bool first = true; for (uint64_t h : ntHashes) { j << (first ? "" : ",") << "\"" << std::hex << h << std::dec << "\""; first = false; } }
+            j << "],\n \"samples\": [";
+            for (size_t i = 0; i < samples.size(); ++i) j << (i ? "," : "") << "\"" << json_escape(samples[i]) << "\"";
+            j << "],\n \"labels\": {";
+            { bool first = true; for (auto &kv : labels) { j << (first ? "" : ",") << "\"" << json_escape(kv.first) << "\": " << kv.second; first = false; } }
+            j << "},\n \"description\": \"" << json_escape(es->second.description) << "\",\n \"failure\": "
+              << (failFile.empty() ? "null" : ("{\"file\": \"" + json_escape(failFile) + "\", \"sig\": \"" + json_escape(failSig) + "\", \"msg\": \"" + json_escape(failMsg) + "\"}")) << "\n}\n";
+        }
+        fflush(stdout); fflush(stderr);
+        _exit(failFile.empty() ? 0 : 1);
     }
 
     auto it = registry().find(prop);
